@@ -66,7 +66,7 @@ class C20Oracle(RaftOracle):
         if k == 'sub' and w.groups is not None and self._minority(ev[2]):
             self.sub_epoch[ev[4]] = (ev[2], self.cut_epoch)
         RaftOracle.after_event(self, ev, out, touched)
-        for tag, res, err, idx in w.step_callbacks:
+        for tag, res, err, idx, _pos in w.step_callbacks:
             se = self.sub_epoch.get(tag)
             if se is not None and err == 0 and se[1] == self.cut_epoch and w.groups is not None and self._minority(se[0]):
                 self.flag('success_while_cut_off', 'command %r submitted on host %d after it was cut off from the majority got SUCCESS while the cut lasts' % (tag, se[0]))
